@@ -164,7 +164,7 @@ int main(void) {
         if (nw > 0) {
           __CPROVER_assert(n_405 == 1 && total == 1 && status == VP_STATUS_NOTALLOWED, "no route of the request's method but other methods match: exactly one 405");
           __CPROVER_assert(n_sent_allow == nw, "Allow names exactly the methods that match the path");
-          for (int i = 0; i < NT; i++) if (i < nw && n_sent_allow == nw) __CPROVER_assert(sent_allow[i] == want[i], "Allow names exactly the methods that match the path (table order)");
+          for (int i = 0; i < NT; i++) if (i < nw && n_sent_allow == nw) { int in = 0; for (int j = 0; j < NT; j++) if (j < nw && sent_allow[j] == want[i]) in = 1; __CPROVER_assert(in, "Allow names exactly the methods that match the path (as a set)"); }
         } else {
           __CPROVER_assert(total == 1 && status == VP_STATUS_NOTFOUND, "nothing matches: exactly one not-found answer");
           __CPROVER_assert(has_nf ? n_nf == 1 : n_404 == 1, "the not-found handler runs if installed, otherwise a plain 404 is sent");
